@@ -115,6 +115,11 @@ for rnd_i in range(1 if tier == "quick" else 4):
     for pr in probs:
         v.report({"branch": "concurrent-connections", "kind": pr["kind"], "detail": pr["cmd"].split()[0].lower()}, pr,
                  what="concurrent connections, %s, %s: %s" % (pr["conn"], pr["cmd"], pr["detail"]))
+    sp_probs, sp_stats = wireconc.subscribed_pipeline(seed=seed * 10 + rnd_i, batches=40 if tier == "quick" else 200)
+    wc_stats.append(sp_stats)
+    for pr in sp_probs:
+        v.report({"branch": "subscribed-pipeline", "kind": pr["kind"], "detail": ""}, pr,
+                 what="a subscribed connection pipelining ordinary commands while others publish: %s" % pr["detail"])
 cov["concurrent_connections"] = wc_stats
 cov["adversarial_inputs"] = r_summary["executed"]
 cov["traces_validated_against_impl"] += 0
